@@ -306,6 +306,26 @@ example :
   decide +kernel
 
 
+/-- **A complete file is never discarded.**  The only deletion site is `_notice_of_completion`
+(`C05_no_write_outside_three_sites`); it leaves the filestore alone unless the transaction was cancelled, the
+disposition on cancellation is configured **and** the delivery is incomplete — a transaction cancelled after
+a complete (verified) delivery keeps its file. -/
+theorem C05_complete_file_not_discarded (env : Env) (s : DestSt)
+    (h : s.p.canceled = false ∨ s.p.fin.deliv ≠ dcIncomplete ∨ ∀ rc, s.p.remoteCfg = some rc → rc.disp = false) :
+    (stateOf (noticeOfCompletion env s)).fs = s.fs := by
+  cases hc : s.p.canceled <;> cases hrc : s.p.remoteCfg with
+  | none => cases hi : env.cfg.indFinished <;> msimp [noticeOfCompletion, hc, hrc, hi, getP, emitInd]
+  | some rc =>
+    cases hi : env.cfg.indFinished <;> cases hd : rc.disp <;>
+      by_cases hdel : s.p.fin.deliv = dcIncomplete <;>
+      first
+      | (msimp [noticeOfCompletion, hc, hrc, hi, hd, hdel, getP, emitInd]; done)
+      | (exfalso
+         rcases h with h | h | h
+         · simp [hc] at h
+         · exact h hdel
+         · have := h rc hrc; simp [hd] at this)
+
 /-! ## the write model folded over every history -/
 
 section Fold
